@@ -209,9 +209,14 @@ def divergence_key(prop, ref, other, per_actor_mode=False):
         _d, act, j, la, lb, x, y = best
         shape = "values"
         text = "actor %s: " % act + describe_divergence(x, y, j)
+        # what this actor had just been through (its last return/exception/wake-up): names the tie whose order was unstable
+        prev = [l for l in x[:j] if l.split()[3] not in ("Q", "S")]
+        after = _klass(prev[-1]) if prev else "start"
     kinds = sorted({_klass(la), _klass(lb)})
     sit = situation(ref, la, lb)
     key = "%s:diverge:%s:%s" % (prop, "|".join(kinds), sit)
+    if per_actor_mode:
+        key += ":after=" + after
     return key, text, {"shape": shape, "kinds": kinds, "situation": sit}
 
 
